@@ -340,7 +340,7 @@ func runC17Stop(s *core.Sim, w *SW, first, top uint64, plan *[]string, obs *int6
 		}
 		mu.Lock()
 		defer mu.Unlock()
-		for h := range acked {
+		for _, h := range sortedHeights(acked) {
 			x := w.Ch.At(h)
 			g, err := w.St.Get(c, x.Hash())
 			// (an acknowledged header above a gap left by a slower writer is stored, but not yet below Head)
